@@ -461,14 +461,19 @@ impl Oracle for Faults {
 fn scenarios(tier: &str) -> Vec<(String, ScenMaker)> {
     let quick = tier == "quick";
     let mut v: Vec<(String, ScenMaker)> = Vec::new();
-    for k in [VolKind::V16a, VolKind::V32a] {
-        for sub_free in [1usize, 0] {
-            if quick && sub_free == 0 && k == VolKind::V16a {
-                continue;
-            }
+    // (volume, SUB free slots, free clusters): the nearly-full layouts make allocations take the highest free cluster,
+    // so that the search for the next free one wraps round to the start of the FAT
+    let mut layouts: Vec<(VolKind, usize, Option<usize>)> = vec![(VolKind::V16a, 1, None), (VolKind::V32a, 1, None), (VolKind::V32a, 0, None), (VolKind::V16a, 1, Some(2)), (VolKind::V16b, 0, Some(1))];
+    if !quick {
+        layouts.push((VolKind::V16a, 0, None));
+        // (a whole-FAT scan on FAT32 is 513 device calls, each of them a fault position)
+        layouts.push((VolKind::V32a, 0, Some(1)));
+    }
+    {
+        for (k, sub_free, free) in layouts {
             let o = MutOpts {
                 kind: k,
-                free: None,
+                free,
                 root_free_slots: None,
                 sub_free_slots: sub_free,
                 fsinfo: FsInfo::Correct,
